@@ -327,26 +327,67 @@ class C10(Check):
         if filler is None:
             raise AnalysisError("Simulation._compute_args missing")
         q = f"{CLS}._compute_args"
-        body = strip_docstring(filler.body)
-        first = body[0]
-        guard = isinstance(first, ast.If) and norm(first.test) in ("len(self.raw_args) > 0", "self.raw_args", "len(self.raw_args) != 0") \
-            and isinstance(first.body[0], ast.Return) and norm(first.body[0].value) == "self.raw_args"
-        if guard:
-            self.holds("V5", MOD, q, "fill-once", first, "returns the filled table when present")
-        else:
-            self.violated("V5", MOD, q, "fill-once", first, "the filler does not return the already filled table first: tables are appended again on every read",
+        # decided on the path summaries of the filler: guard clause, nested if and staged locals all read alike
+        import re as _re
+
+        from ..interp import Sym, SymInterp
+
+        class I1(SymInterp):
+            loop_unroll = 1
+
+        T = "self.raw_args"
+        FILLED = {f"len({T}) > 0": True, f"len({T}) != 0": True, T: True, f"len({T}) >= 1": True, f"bool({T})": True,
+                  f"len({T}) == 0": False, f"len({T}) < 1": False, f"len({T}) <= 0": False}
+        paths = [st for st, _ in I1().run_function(filler, Sym()).returns]
+        if not paths:
+            raise AnalysisError(f"{q}: no path returns")
+        first = strip_docstring(filler.body)[0]
+        problems = []
+        n_fill = n_hit = 0
+        for st in paths:
+            filled = None
+            for c, v in st.conds:
+                if c in FILLED:
+                    filled = FILLED[c] == v
+                    break
+            apps = [e for e in st.events if e[0] == "call" and e[1].startswith(f"{T}.append(")]
+            ret = [e[1] for e in st.events if e[0] == "return"]
+            if apps and filled is not False:
+                problems.append("tables are appended on a path that has not established that the table list is empty")
+            if filled is True:
+                n_hit += 1
+                if not ret or ret[-1] != T:
+                    problems.append(f"with the tables present the filler returns `{ret[-1] if ret else None}`")
+            if apps:
+                n_fill += 1
+        if n_hit == 0:
+            problems.append("no path returns the already filled table list")
+        if problems:
+            self.violated("V5", MOD, q, "fill-once", first, "; ".join(sorted(set(problems))) + ": tables are appended again on every read",
                           witness="reading sim.fluxes twice doubles raw_args and breaks the zip with raw_parameters")
-        loops = [s for s in body if isinstance(s, ast.For)]
-        ok = False
-        if loops:
-            lp = loops[0]
-            apps = [c for c in ast.walk(lp) if isinstance(c, ast.Call) and norm(c.func) == "self.raw_args.append"]
-            ok = len(apps) == 1 and "zip(self.raw_variables, self.raw_parameters" in norm(lp.iter) and \
-                not any(isinstance(x, (ast.If, ast.Continue, ast.Break)) for x in walk_no_nested(lp))
-        if ok:
-            self.holds("V5", MOD, q, "one-table-per-segment", loops[0], "exactly one table appended per (frame, parameters) pair, unfiltered")
         else:
-            self.violated("V5", MOD, q, "one-table-per-segment", filler, "not exactly one argument table per segment")
+            self.holds("V5", MOD, q, "fill-once", first, "tables are appended only when the list is empty; a filled list is returned as it is")
+        seg_problems = []
+        fill_paths = [st for st in paths if any(e[0] == "call" and e[1].startswith(f"{T}.append(") for e in st.events)]
+        if not fill_paths:
+            seg_problems.append("no path appends a table")
+        for st in fill_paths:
+            apps = [e[1] for e in st.events if e[0] == "call" and e[1].startswith(f"{T}.append(")]
+            if len(apps) != 1:
+                seg_problems.append(f"{len(apps)} tables appended per segment")
+                continue
+            if "ITEM(0, self.raw_variables)" not in apps[0]:
+                seg_problems.append("the appended table is not computed from the segment's own frame")
+            extra = [c for c, _ in st.conds if c not in FILLED]
+            if extra:
+                seg_problems.append(f"appending depends on `{extra[0][:50]}`")
+        src = [n for n in ast.walk(filler) if isinstance(n, (ast.For, ast.comprehension)) and "self.raw_variables" in norm(n.iter)]
+        if not src or not _re.search(r"zip\(self\.raw_variables, self\.raw_parameters\b", norm(src[0].iter)):
+            seg_problems.append("frames and parameter sets are not walked pairwise over their whole length")
+        if seg_problems:
+            self.violated("V5", MOD, q, "one-table-per-segment", src[0] if src else filler, "not exactly one argument table per segment: " + "; ".join(sorted(set(seg_problems))))
+        else:
+            self.holds("V5", MOD, q, "one-table-per-segment", src[0], "exactly one table appended per (frame, parameters) pair, unfiltered")
         # nobody else appends / reads raw_args directly
         others = []
         for name, fn in methods.items():
